@@ -424,6 +424,12 @@ func TestC07_ParserAcceptsExactly(t *testing.T) {
 		case "req-nonce-undecodable":
 			resignWithKey(m, m.SignKey.WithNonce(rapid.SampledFrom([]string{"!!", "a b", "=="}).Draw(t, "badNonce")))
 		case "req-reveal-other-key":
+			if rapid.Bool().Draw(t, "signedCarriesRightReveal") {
+				// a reveal value inside the signed data is not the request's reveal value
+				m.Signed["revealValue"] = m.Reveal
+				m.sign()
+				detail = "signed data carries the matching reveal value"
+			}
 			m.Reveal = otherKey(t, m.SignKey).Reveal(alg)
 			m.assemble()
 		case "req-reveal-respelled", "req-reveal-shortened", "req-header-duplicate-member", "req-reveal-edited", "req-header-not-object", "req-alg-not-string":
